@@ -1,8 +1,9 @@
 """C11 - credentials go only to their own registry, over its configured transport; no secrets in logs.
 
 (D) spec/Auth.tla (+AuthMC configuration space) is checked exhaustively by TLC: the model of the
-code as it is admits only the known leak mechanisms, the model with the candidate repairs admits
-none.  TLC generates server scripts from the same spec (AuthGen: exhaustive to depth 2 and seeded
+code as it is today (cleartext and sub-domain repairs in, S3 open) leaks only through handlers keyed
+by a foreign host, the model with S3 repaired as well admits no leak, the model of the code as found
+admits three mechanisms.  TLC generates server scripts from the same spec (AuthGen: exhaustive to depth 2 and seeded
 random walks to depth 4); harness/cmd/c11drv replays each script against the real regclient with
 scripted in-process hosts and records what every host received and what was logged; TLC validates
 every recorded trace against the monitor (P) spec/AuthProp.tla through spec/AuthTrace.tla.  A
@@ -110,6 +111,8 @@ def replay(ctx, scns, name, jobs=16):
         raise vlib.ToolError("driver returned %d traces for %d scenarios" % (len(trs), len(scns)))
     return trs
 
+
+HEAD_SWITCHES = {"HonorsHost": False, "SchemeBound": True, "StripOnRedirect": True}
 
 PROBES = [
     {"id": "probe-s3", "conf": {"op": "bget", "tls": {"A": True, "B": True, "M": True},
@@ -241,28 +244,34 @@ def run(ctx):
         sw = detect_switches(ctx)
         mc, gens = [], []
     else:
-        # 0. which repairs are in the tree (so that (D)'s predictions follow the code)
+        # 0. which repairs are in the tree (so that (D)'s predictions follow the code; on /repo's HEAD
+        #    these are the defaults of the configs, on a fixrev seed the as-found switches)
         sw = detect_switches(ctx)
-        vlib.log("C11: code under test: %s" % sw)
+        vlib.log("C11: code under test: %s%s" % (sw, "" if sw == HEAD_SWITCHES else " (differs from the default of (D))"))
 
-        # 1. exhaustive checks of the design spec
+        # 1. exhaustive checks of the design spec.  Default switches = /repo today (cleartext and
+        #    sub-domain repairs in, S3 open); "fixed" = S3 repaired too; "as found" = before the repairs.
         mc = [ctx.tlc("AuthMC", "C11_mc_asis.cfg", timeout=3000, workers=8,
-                      label="code as is, <=3 faults, 14 generator configurations: only the known leak mechanisms"),
+                      label="code as is (S3 open), <=3 faults, 14 generator configurations: every leak goes through "
+                            "a handler keyed by a foreign host"),
               ctx.tlc("AuthMC", "C11_mc_fixed.cfg" if thorough else
                       write_cfg(ctx, "C11_mc_fixed.cfg", "C11_mc_fixed_q.cfg", {"MaxFaults": 2}), timeout=3000, workers=8,
-                      label="all repairs, <=%d faults, 14 generator configurations: no leak" % (3 if thorough else 2))]
+                      label="S3 repaired too, <=%d faults, 14 generator configurations: no leak" % (3 if thorough else 2))]
         if thorough:
             wide = {"Confs": "AllConfs", "MaxFaults": 2}
             mc.append(ctx.tlc("AuthMC", write_cfg(ctx, "C11_mc_asis.cfg", "C11_mc_asis_all.cfg", wide), timeout=3000,
-                              workers=8, label="code as is, <=2 faults, all 232 configurations"))
+                              workers=8, label="code as is (S3 open), <=2 faults, all 232 configurations"))
             mc.append(ctx.tlc("AuthMC", write_cfg(ctx, "C11_mc_fixed.cfg", "C11_mc_fixed_all.cfg", wide), timeout=3000,
-                              workers=8, label="all repairs, <=2 faults, all 232 configurations: no leak"))
+                              workers=8, label="S3 repaired too, <=2 faults, all 232 configurations: no leak"))
+            mc.append(ctx.tlc("AuthMC", "C11_mc_asfound.cfg", timeout=3000, workers=8,
+                              label="code as found (before 7d8bea3, 14e04da), <=3 faults, 14 configurations: three leak "
+                                    "mechanisms"))
             for k in ("HonorsHost", "SchemeBound", "StripOnRedirect"):
                 one = write_cfg(ctx, "C11_mc_repair.cfg", "C11_mc_%s.cfg" % k, {k: "TRUE"})
                 mc.append(ctx.tlc("AuthMC", one, timeout=3000, workers=8,
-                                  label="only %s, <=3 faults, 14 configurations: its leak class is gone" % k))
+                                  label="as found + only %s, <=3 faults, 14 configurations: its leak class is gone" % k))
             mc.append(ctx.tlc("AuthMC", "C11_mc_deep.cfg", timeout=3000, workers=8,
-                              label="code as is, <=4 faults, 3 configurations, core alphabets"))
+                              label="code as is (S3 open), <=4 faults, 3 configurations, core alphabets"))
         lap("model checked")
         # 2. server scripts from the design spec with the switches of the code under test
         subst = {k: tla_bool(v) for k, v in sw.items()}
@@ -411,7 +420,7 @@ def run(ctx):
         "generators": gens, "tlc_scenarios": len(scns),
         "replayed_as_predicted_by_D": exact, "drift": drift, "drift_by_op": dict(drift_ops),
         "driver_notes": dict(notes), "binding_demo": demo,
-        "code_under_test_has_repairs": sw,
+        "code_under_test_has_repairs": sw, "design_default": HEAD_SWITCHES,
         "samples": sample,
         "entry_points": ["regclient.ManifestGet/Head/Put", "regclient.BlobGet/Head/Put", "regclient.ImageCopy "
                          "(also ImageWithIncludeExternal)", "reghttp.Client.Do", "auth.Auth.HandleResponse/UpdateRequest",
